@@ -13,7 +13,7 @@ ALL = ["C%02d" % i for i in range(1, 21)]
 
 # property -> (technique, design section)
 TECH = {
-    "C01": "RF-IVL interval abstract interpretation of every fixed-array subscript + RF-NEG decode-error taint + RF-REC recursion inventory + RF-PAIR page-reference typestate",
+    "C01": "RF-IVL interval abstract interpretation (loop unrolling, value partitioning, widening thresholds, OR-accumulated error words) of every fixed-array subscript and pointer-cursor dereference + RF-INV declared field invariants verified inductively at every writer (stores, memset/memcpy, escaping addresses, constant tables) + RF-ASSERT assertion reachability per call site + RF-SHIFT shift-amount/divisor intervals + RF-UAF freed-pointer dataflow + RF-INIT heap list-node completeness + RF-REC recursion inventory with guard dominance + RF-PAIR page/network reference typestate",
     "C03": "RF-NEG flow-sensitive decode-error taint (state stores, shifts, unexamined results; OR-accumulation aware) over every function of packet.c/teletext.c + RF-NOWRITE on the link helpers + RF-DOM header/parity-gate/X-26 error-edge dominance + RF-TAB parity-exempt mode table",
     "C05": "RF-DOM capacity-test dominance on the output cursor and slicer calls + RF-INIT per-installed-slicer field completeness and failure disarm + RF-DEP dependence closure of the CRI search limit",
     "C06": "RF-TAB data-unit tables extracted from mux and demux code and compared (id, service, payload bytes, bit order, lengths) + RF-DOM sliced-line frame boundary (edge-filtered reachability) + RF-CORR failure clears the coroutine window + RF-DOM callback after success",
